@@ -361,7 +361,7 @@ func layoutsOf(root *jsonfault.Node, firstKeyPath []string, full bool) []layout 
 }
 
 // judge parses every layout (twice, auto and explicit) and applies all oracles.
-func judge(t *engine.T, ls []layout, explicit formats.Format, inputIDs map[string]int, refsResolve bool, hasEscapableIDs bool) *engine.Violation {
+func judge(t *engine.T, ls []layout, explicit formats.Format, inputIDs map[string]int, refsResolve bool, hasEscapableIDs bool, wantNodes ...int) *engine.Violation {
 	base := ""
 	baseErr := false
 	for li, l := range ls {
@@ -383,6 +383,9 @@ func judge(t *engine.T, ls []layout, explicit formats.Format, inputIDs map[strin
 		if v := invariants(d1, inputIDs, refsResolve); v != nil {
 			v.Detail = "layout " + l.Name + ": " + v.Detail
 			return v
+		}
+		if len(wantNodes) == 1 && len(d1.NodeList.Nodes) != wantNodes[0] {
+			return engine.Violate("node-count", "", "layout %s: the input has %d distinct elements (distinct references + reference-less components, each of which gets its own generated identifier) but %d nodes were parsed", l.Name, wantNodes[0], len(d1.NodeList.Nodes))
 		}
 		k1, k2, k3 := docKey(d1), docKey(d2), docKey(d3)
 		t.Validated(3)
@@ -426,6 +429,7 @@ func Run(c *engine.Ctx) {
 type comp struct {
 	Ref    string // "" = absent
 	Parent int    // -1 top level, else index of an earlier component
+	Purl   string // "" = absent
 }
 
 func cdxDoc(version string, meta int, comps []comp) (*jsonfault.Node, map[string]int) {
@@ -446,6 +450,10 @@ func cdxDoc(version string, meta int, comps []comp) (*jsonfault.Node, map[string
 	nodes := make([]*jsonfault.Node, len(comps))
 	for i, cdef := range comps {
 		nodes[i] = mk(cdef.Ref, fmt.Sprintf("c%d", i))
+		if cdef.Purl != "" {
+			nodes[i].Keys = append(nodes[i].Keys, "purl")
+			nodes[i].Elems = append(nodes[i].Elems, str(cdef.Purl))
+		}
 	}
 	top := &jsonfault.Node{Kind: jsonfault.Array}
 	for i, cdef := range comps {
@@ -512,7 +520,16 @@ func cdxInputs(c *engine.Ctx) {
 					root, ids := cdxDoc(ver, meta, comps)
 					ls := layoutsOf(root, []string{"components", "[0]"}, c.Thorough())
 					f := map[string]formats.Format{"1.3": formats.CDX13JSON, "1.4": formats.CDX14JSON, "1.5": formats.CDX15JSON}[ver]
-					if v := judge(t, ls, f, ids, true, false); v != nil {
+					want := len(ids)
+					for _, cd := range comps {
+						if cd.Ref == "" {
+							want++
+						}
+					}
+					if meta == 2 {
+						want++
+					}
+					if v := judge(t, ls, f, ids, true, false, want); v != nil {
 						return v
 					}
 					t.State(ls[0].Text)
@@ -529,6 +546,10 @@ func cdxInputs(c *engine.Ctx) {
 			}
 			for _, r := range refs {
 				rec(append(append([]comp{}, cur...), comp{Ref: r, Parent: p}))
+			}
+			// reference-less components described by a purl: the same one twice, near-identical ones
+			for _, pu := range []string{"pkg:npm/left-pad@1.3.0", "pkg:npm/left pad@1.3.0"} {
+				rec(append(append([]comp{}, cur...), comp{Ref: "", Parent: p, Purl: pu}))
 			}
 		}
 	}
